@@ -3,3 +3,4 @@ import Proofs.Conservation
 import Proofs.WalkerProofs
 import Proofs.LoadDag
 import Proofs.LedgerDag
+import Proofs.AwaitProofs
